@@ -117,6 +117,22 @@ def moments_check(ctx, cell, n, X, W):
     return len(exps)
 
 
+def judge_rule(ctx, cell, n, X, W):
+    """Oracle on one delivered rule (also attached to get_quadrature under the repository suite)."""
+    _, d, kind, measure = CELLS[cell]
+    if n < 1:
+        n_eff = n
+    wedge_mech = "wedge-rule-not-product-of-triangle-and-line" if cell == "wedge" else None
+    ctx.check("shape", X.ndim == 2 and X.shape[0] == d and W.ndim == 1 and X.shape[1] == W.size,
+              mech=f"shape:{cell}", cell=cell, order=n, X=X.shape, W=W.shape)
+    ctx.close("weights-sum-to-measure", W.sum(), float(measure), rtol=5e-14,
+              scale=float(np.abs(W).sum() + measure), mech=wedge_mech or f"weights:{cell}",
+              cell=cell, order=n, nodes=int(W.size))
+    ctx.check("nodes-in-closed-cell", inside(cell, X), mech=wedge_mech or f"nodes-outside:{cell}",
+              cell=cell, order=n, worst=lambda: float(np.max(X)) if X.size else 0.0)
+    return moments_check(ctx, cell, n, X, W)
+
+
 def sweep_cell(cell):
     def fn(ctx, k):
         import skfem
@@ -151,15 +167,7 @@ def sweep_cell(cell):
             accepted.append(n)
             X = np.asarray(X, dtype=float)
             W = np.asarray(W, dtype=float)
-            wedge_mech = "wedge-rule-not-product-of-triangle-and-line" if cell == "wedge" else None
-            ctx.check("shape", X.ndim == 2 and X.shape[0] == d and W.ndim == 1 and X.shape[1] == W.size,
-                      mech=f"shape:{cell}", cell=cell, order=n, X=X.shape, W=W.shape)
-            ctx.close("weights-sum-to-measure", W.sum(), float(measure), rtol=5e-14,
-                      scale=float(np.abs(W).sum() + measure), mech=wedge_mech or f"weights:{cell}",
-                      cell=cell, order=n, nodes=int(W.size))
-            ctx.check("nodes-in-closed-cell", inside(cell, X), mech=wedge_mech or f"nodes-outside:{cell}",
-                      cell=cell, order=n, worst=lambda: float(np.max(X)) if X.size else 0.0)
-            nm = moments_check(ctx, cell, n, X, W)
+            nm = judge_rule(ctx, cell, n, X, W)
             if W.size >= 2:
                 ctx.nontrivial(cell, n)
             ctx.sample({"cell": cell, "order": n, "nodes": int(W.size), "monomials_checked": nm,
@@ -195,7 +203,8 @@ def unknown_refdom(ctx, k):
     ctx.check("unsupported-order-raises", raised, mech="unknown-refdom-accepted")
 
 
+SUITE = True   # thorough tier also runs the repository suite with this oracle attached (rv/suite_monitors.py)
 FAMILIES = [Family("sweep-" + c, sweep_cell(c), quick=1, thorough=1,
                    budget={"quick": 60, "thorough": 300}) for c in CELLS]
 FAMILIES.append(Family("unknown-refdom", unknown_refdom, 1, 1))
-NPROC = {"quick": 1, "thorough": 1}
+NPROC = {"quick": 1, "thorough": 2}
